@@ -20,3 +20,20 @@ package dataflow
 //@   requires s != nil && s.Config != nil && 0 <= s.numAlarms.v && s.numAlarms.v < 2147483647
 //@   ensures counts: s.numAlarms.v == old(s.numAlarms.v) + 1
 //@   ensures limit: result <==> (s.Config.MaxAlarms <= 0 || old(s.numAlarms.v) + 1 < s.Config.MaxAlarms)
+
+// C12 / C10: callee resolution never omits the function actually called. A static
+// callee is returned as is; otherwise every call-graph edge leaving the enclosing
+// function at this call site contributes its callee (ek is an arbitrary edge index).
+//@ func AnalyzerState.ResolveCallee
+//@   property C12 C10
+//@   ghost ek int
+//@   requires s != nil && instr != nil && ref(instr) != 0
+//@   requires s.PointerAnalysis != nil ==> s.PointerAnalysis.CallGraph != nil
+//@   requires forall f *ssa.Function :: s.PointerAnalysis != nil && has(s.PointerAnalysis.CallGraph.Nodes, f) ==> s.PointerAnalysis.CallGraph.Nodes[f] != nil
+//@   requires forall f *ssa.Function, k int :: s.PointerAnalysis != nil && has(s.PointerAnalysis.CallGraph.Nodes, f) && 0 <= k && k < len(s.PointerAnalysis.CallGraph.Nodes[f].Out) ==> s.PointerAnalysis.CallGraph.Nodes[f].Out[k] != nil && s.PointerAnalysis.CallGraph.Nodes[f].Out[k].Callee != nil
+//@   macro KEY() = lang.InstrMethodKey(instr).ValueOr("")
+//@   ensures interface_contract_first: old(instr.Common().StaticCallee()) == nil && useContracts && old(has(s.DataFlowContracts, KEY()) && s.DataFlowContracts[KEY()] != nil) ==> result1 == nil && has(result0, old(s.DataFlowContracts[KEY()].Parent)) && result0[old(s.DataFlowContracts[KEY()].Parent)].Type == InterfaceContract && (forall f *ssa.Function :: has(result0, f) ==> f == old(s.DataFlowContracts[KEY()].Parent))
+//@   macro CGN() = s.PointerAnalysis.CallGraph.Nodes[instr.Parent()]
+//@   ensures callgraph_edges: old(instr.Common().StaticCallee()) == nil && !useContracts && s.PointerAnalysis != nil && has(s.PointerAnalysis.CallGraph.Nodes, instr.Parent()) && 0 <= ek && ek < len(CGN().Out) && CGN().Out[ek].Site == instr ==> has(result0, CGN().Out[ek].Callee.Func) && result0[CGN().Out[ek].Callee.Func].Callee == CGN().Out[ek].Callee.Func
+//@   loop callEdge invariant seen: 0 <= ek && ek < iter(callEdge) && CGN().Out[ek].Site == instr ==> has(callees, CGN().Out[ek].Callee.Func) && callees[CGN().Out[ek].Callee.Func].Callee == CGN().Out[ek].Callee.Func
+//@   ensures static_callee: old(instr.Common().StaticCallee()) != nil ==> result1 == nil && has(result0, old(instr.Common().StaticCallee())) && result0[old(instr.Common().StaticCallee())].Callee == old(instr.Common().StaticCallee()) && result0[old(instr.Common().StaticCallee())].Type == Static
